@@ -240,11 +240,19 @@ def r4(ctx):
                         'independent')
     # qtp definition: linear power / cross-section area of the cell
     dp = repo.func('region_rodded', 'RoddedRegion._calc_duct_power')
-    pd = U.single_def(dp.node, 'pdens')
+    # the value returned on the heated path (through a local or directly)
+    rets_ = [r_ for r_ in walk_no_nested(dp.node)
+             if isinstance(r_, ast.Return) and r_.value is not None
+             and 'np.zeros' not in src(r_.value)]
+    pd = None
+    if len(rets_) == 1:
+        pd = U.expand_locals(dp.node, rets_[0].value,
+                             before=rets_[0].lineno, depth=2,
+                             keep=('start', 'end', 'p_duct', 'duct_id'))
     ctx.require(pd is not None and ' '.join(src(pd).split()) ==
                 "p_duct[start:end] / self.duct_params['q_area'][duct_id, "
                 "self._duct_idx]", 'C11.R4', dp,
-                pd if pd is not None else dp.node,
+                rets_[0] if rets_ else dp.node,
                 'volumetric heating = linear power / wall cell area',
                 key=dp.full + ' | qtp')
     # ---- unrodded closed form (q = 0)
